@@ -25,12 +25,20 @@ POOL = {
     "mixed": ["AB", "aB", "Xy", "Col1", "userId", "x", "Y_2", "zZz", "_u"],
     "reserved": ["select", "Order", "FROM", "group", "Table", "by", "Where", "join"],
     "spaced": ["c d", "My Col", "a-b", "x#1", "two  sp", "Q r s"],
-    "digit": ["1a", "2B c", "9x_Y", "007"[:2] + "z"],
+    "digit": ["1a", "2B c", "9x_Y", "00z"],
     "unicode": ["Été", "Straße", "日本", "Ünï cöde", "\U0001F600", "a\U0001F600B",
                 "ДА", "\U0001D4B3y", "ça", "nº1"],
 }
 CATEGORY = {n: c for c, ns in POOL.items() for n in ns}
 ALL_NAMES = [n for ns in POOL.values() for n in ns]
+
+
+# Spark-dialect keywords which sqlframe's orderBy cannot re-parse when they are bare column names (measured; the Coq
+# model carries the same list as a definition of sqlglot's behaviour)
+KW_ORDERBY = set("alter always analyze and any as between case create cross distinct drop else except fetch for from glob "
+                 "grant having ilike in inner insert intersect into join lateral like lock minus not notnull on or outer "
+                 "over qualify regexp returning rlike rollback select serdeproperties tablesample then uncache union using "
+                 "values when where with xor nullable".split())
 
 
 def py_lower_ok(n: str) -> bool:
@@ -121,7 +129,7 @@ class Gen:
         a = new[0] if new and self.r.random() < 0.7 else variant(self.r, n)
         return ("alias", self.ref(n), a)
 
-    def step(self, ns):
+    def step(self, ns, prev=None):
         r = self.r
         k = r.random()
         if k < 0.22:
@@ -171,7 +179,11 @@ class Gen:
         if k < 0.92:
             return ("where", self.ref(r.choice(ns)))
         if k < 0.96:
-            return ("orderBy", [self.ref(x) for x in r.sample(ns, r.randint(1, min(2, len(ns))))])
+            cand = ns
+            if prev == "join":   # qualified keyword columns (t.select) hit further parser quirks: not generated
+                cand = [x for x in ns if key(x) not in KW_ORDERBY] or None
+            if cand:
+                return ("orderBy", [self.ref(x) for x in r.sample(cand, r.randint(1, min(2, len(cand))))])
         if k < 0.98:
             return ("limit",)
         return ("distinct",)
@@ -182,7 +194,7 @@ class Gen:
         ns = list(n0)
         ops = []
         for _ in range(r.randint(1, maxlen)):
-            op = self.step(ns)
+            op = self.step(ns, ops[-1][0] if ops else None)
             ops.append(op)
             ns = py_spec_step(op, ns)
             if not ns or len({key(x) for x in ns}) != len(ns) and r.random() < 0.8:
@@ -277,3 +289,120 @@ def run_program(session, F, prog, full=True):
                 obs.append({"error": f"{type(ex).__name__}: {str(ex)[:160]}"})
                 break
     return obs
+
+
+# ------------------------------------------------------------------------------------------------
+# Coq terms
+# ------------------------------------------------------------------------------------------------
+def nm(s: str) -> str:
+    return "[" + "; ".join(str(ord(ch)) for ch in s) + "]"
+
+
+def nms(l) -> str:
+    return "[" + "; ".join(nm(x) for x in l) + "]"
+
+
+def selarg_coq(a) -> str:
+    if a[0] == "str":
+        return f"(SStr {nm(a[1])})"
+    if a[0] == "col":
+        return f"(SCol {nm(a[1])})"
+    return f"(SAlias {nm(a[1])} {nm(a[2])})"
+
+
+def op_coq(op) -> str:
+    k = op[0]
+    if k == "select":
+        return f"(OSelect {listlit([selarg_coq(a) for a in op[1]])})"
+    if k == "withColumn":
+        return f"(OWithColumn {nm(op[1])})"
+    if k == "withColumnRenamed":
+        return f"(OWithColumnRenamed {nm(op[1])} {nm(op[2])})"
+    if k == "toDF":
+        return f"(OToDF {nms(op[1])})"
+    if k == "drop":
+        return f"(ODrop {nms(op[1])})"
+    if k == "groupAgg":
+        return f"(OGroupAgg {listlit([selarg_coq(a) for a in op[1]])} {nms(op[2])})"
+    if k == "agg":
+        return f"(OAgg {nms(op[1])})"
+    if k == "join":
+        return f"(OJoin {nms(op[1])} {nms(op[2])})"
+    if k == "fillna":
+        return "(OFillna None)" if op[1] is None else f"(OFillna (Some {nms(op[1])}))"
+    if k == "dropna":
+        return "ODropna"
+    if k == "dropDuplicates":
+        return f"(ODropDuplicates {nms(op[1])})"
+    if k == "where":
+        return f"(OWhere {nm(op[1])})"
+    if k == "orderBy":
+        return f"(OOrderBy {nms(op[1])})"
+    if k == "limit":
+        return "OLimit"
+    if k == "distinct":
+        return "ODistinct"
+    raise ValueError(op)
+
+
+def all_strings(prog, obs=()):
+    out = list(prog["names"])
+    for op in prog["ops"]:
+        for x in op[1:]:
+            if isinstance(x, str):
+                out.append(x)
+            elif isinstance(x, (list, tuple)):
+                for y in x:
+                    if isinstance(y, str):
+                        out.append(y)
+                    elif isinstance(y, (list, tuple)):
+                        out += [z for z in y[1:] if isinstance(z, str)]
+    for o in obs:
+        for v in ("columns", "fields", "schema", "pandas", "receiver_after"):
+            out += list(o.get(v) or [])
+    return out
+
+
+def env_tables(strings):
+    lower, word = {}, set()
+    for st in strings:
+        for ch in st:
+            cp = ord(ch)
+            if cp >= 128:
+                lo = ch.lower()
+                if lo != ch:
+                    lower[cp] = [ord(x) for x in lo]
+                if re.fullmatch(r"\w", ch):
+                    word.add(cp)
+    lt = "[" + "; ".join(f"({k}, [{'; '.join(map(str, v))}])" for k, v in sorted(lower.items())) + "]"
+    wt = "[" + "; ".join(str(x) for x in sorted(word)) + "]"
+    return lt, wt
+
+
+def obs_coq(o) -> str:
+    if o is None or "error" in o:
+        return "None"
+    recv = o.get("receiver_after", o["columns"])
+    return (f"(Some (mkObs {nms(o['columns'])} {nms(o['fields'])} {nms(o['schema'])} {nms(o['pandas'])} {nms(recv)}))")
+
+
+def case_coq(prog, obs) -> str:
+    lt, wt = env_tables(all_strings(prog, obs))
+    return (f"(mkCase {lt} {wt} {nms(prog['names'])} {listlit([op_coq(o) for o in prog['ops']])} "
+            f"{listlit([obs_coq(o) for o in obs])})")
+
+
+HEADER = """From SF Require Import C10.Check.
+From Gen Require Import C10Facts.
+Open Scope N_scope.
+Definition check := Check.check gen_cfg.
+"""
+FLAGS = ["impl_ok", "model_ok", "spec_ok", "m_columns", "m_fields", "m_schema", "m_pandas", "m_receiver",
+         "s_columns", "s_fields", "s_schema", "s_pandas", "model_eq_spec"]
+
+
+def parse_result(r):
+    head, _, body = r.partition(";")
+    groups = body.split(",") if body else []
+    return {"td": head[0] == "1", "tc": head[1] == "1", "cfg_ok": head[2] == "1",
+            "steps": [{f: g[i] == "1" for i, f in enumerate(FLAGS)} for g in groups if len(g) == len(FLAGS)]}
